@@ -18,6 +18,7 @@ import (
 
 	"github.com/prometheus/prometheus/internal/verif/vx"
 	"github.com/prometheus/prometheus/storage"
+	"github.com/prometheus/prometheus/tsdb/wlog"
 )
 
 func c53Tree(dir string) map[string]string {
@@ -81,7 +82,20 @@ func (c c53Queryable) ChunkQuerier(mint, maxt int64) (storage.ChunkQuerier, erro
 }
 
 func c53Check(x *dbx) *vx.Fail {
-	op := strings.SplitN(x.lastOp, "/", 2)[0]
+	if f := c53CheckDir(x, nil, ""); f != nil {
+		return f
+	}
+	// variant: the newest WAL segment never reached the disk (lost WAL tail) while the head-chunk
+	// files did: data that exists only in chunks_head must be served by both kinds of open
+	first, last, err := wlog.Segments(filepath.Join(x.dir, "wal"))
+	if err == nil && last > first {
+		return c53CheckDir(x, func(dir string) { os.Remove(wlog.SegmentName(filepath.Join(dir, "wal"), last)) }, "lost-wal-tail/")
+	}
+	return nil
+}
+
+func c53CheckDir(x *dbx, mutate func(dir string), variant string) *vx.Fail {
+	op := variant + strings.SplitN(x.lastOp, "/", 2)[0]
 	a, _ := os.MkdirTemp("", "c53ro")
 	b, _ := os.MkdirTemp("", "c53rw")
 	out, _ := os.MkdirTemp("", "c53sandbox")
@@ -93,6 +107,10 @@ func c53Check(x *dbx) *vx.Fail {
 	}
 	if err := dbxCopyDir(x.dir, b); err != nil {
 		panic(err)
+	}
+	if mutate != nil {
+		mutate(a)
+		mutate(b)
 	}
 	// read-write reference
 	rw, err := Open(b, nil, nil, x.cfg.options(), nil)
@@ -192,16 +210,7 @@ func c53Check(x *dbx) *vx.Fail {
 func c53New(r *vx.Run, c dbxCfg, name string) *dbx {
 	x := dbxWithSoft(r, c, name)
 	x.noQueryChk = true
-	x.extraOps = func(x *dbx) []string { return []string{"rotate"} }
-	x.extraApply = func(x *dbx, op string, check bool) (bool, *vx.Fail) {
-		if op == "rotate" {
-			if _, err := x.db.Head().wal.NextSegment(); err != nil {
-				return true, vx.Failf("op-error/rotate", "%v", err)
-			}
-			return true, nil
-		}
-		return false, nil
-	}
+	x.extraOps = func(x *dbx) []string { return []string{"rotate", "mmap"} }
 	x.extraCheck = c53Check
 	return x
 }
@@ -241,5 +250,17 @@ func TestVerifC53(t *testing.T) {
 		name := p.cfg + "@" + p.alpha
 		res := r.BFS(name, func() vx.Sys { return c53New(r, c, name) }, p.depth)
 		t.Logf("C53 %s depth %d: states=%d transitions=%d", name, p.depth, res.States, res.Transitions)
+	}
+	// search from non-initial states
+	for _, cn := range vx.Pick(r, []string{"ooo"}, []string{"ooo", "base", "ooo+overlap"}) {
+		if r.Expired() {
+			r.NotExhaustive("deadline before the non-initial-state search of " + cn)
+			break
+		}
+		c := cfgs[cn]
+		c.Alphabet = "small"
+		name := cn + "@small+starts"
+		res := r.BFSFrom(name, func() vx.Sys { return c53New(r, c, name) }, dbxStarts(c.W), vx.Pick(r, 0, 1))
+		t.Logf("C53 %s: states=%d transitions=%d", name, res.States, res.Transitions)
 	}
 }
